@@ -22,7 +22,9 @@ pub enum StepRes {
     Got { key: (u8, u8), real: Result<Got, Pan>, want: Result<ROut, RPanic> },
     Acc { key: (u8, u8), real: Result<Vec<u32>, Pan>, want: Result<Vec<u32>, RPanic> },
     Write { real: Result<(), Pan>, expect_panic: bool },
-    Interned { real: (u8, u64, u32), want: (u8, u32) },
+    Interned { real: Result<(u8, u64, u32), Pan>, want: (u8, u32) },
+    /// eviction / capacity change (takes `&mut db`, no new revision)
+    Maint { real: Result<(), Pan> },
     Other,
 }
 
@@ -149,12 +151,21 @@ pub struct SeqOutcome {
     pub violations: Vec<Violation>,
     pub labels: Vec<&'static str>,
     pub steps_run: usize,
+    /// sub-runs performed for this case beyond the first (fault points, schedules, ...)
+    pub extra_evals: u64,
+    /// additional counters for the evidence file
+    pub counters: Vec<(&'static str, u64)>,
+    /// fault engine: total user-code sites ticked, and whether the armed fault fired
+    pub ticks: u64,
+    pub fault_fired: bool,
 }
 
 #[derive(Clone, Debug, Default)]
 pub struct SeqOpts {
     /// stop at the first violation
     pub stop_early: bool,
+    /// fault engine (C22): `Some(None)` = count user-code sites, `Some(Some(k))` = panic at site k
+    pub fault: Option<Option<u64>>,
 }
 
 pub fn ref_eval_get<'a>(ev: &mut Eval<'a>, node: u8, arg: u8) -> Result<ROut, RPanic> {
@@ -192,6 +203,11 @@ pub fn run_seq(case: &Case, oracles: &mut [Box<dyn Oracle>], opts: &SeqOpts) -> 
 
     let steps = expand(case);
     salsa::verif_hooks::start();
+    if let Some(f) = opts.fault {
+        crate::fault::reset(f);
+    }
+    // revision in which the injected fault fired (fault engine)
+    let mut fault_rev: Option<u32> = None;
     let mut fresh_world: Option<(usize, World)> = None;
     for (idx, step, probe) in steps.iter() {
         let idx = *idx;
@@ -200,6 +216,7 @@ pub fn run_seq(case: &Case, oracles: &mut [Box<dyn Oracle>], opts: &SeqOpts) -> 
         let model_before = model.clone();
         let rev_before = rev_num(&world.db);
         let mut eval_holder: Option<Eval> = None;
+        let fired_before = crate::fault::fired();
         let res = match step {
             Step::Set { slot, field, val, dur } => {
                 let frozen = model.frozen[*slot as usize][*field as usize];
@@ -236,20 +253,60 @@ pub fn run_seq(case: &Case, oracles: &mut [Box<dyn Oracle>], opts: &SeqOpts) -> 
                 let real = world.get_acc(*node, arg);
                 StepRes::Acc { key: (*node, arg), real, want: Err(RPanic::Depth) }
             }
-            Step::Evict => {
-                world.evict();
-                StepRes::Other
-            }
-            Step::LruCap { cap, .. } => {
-                world.lru_cap(*cap as usize);
-                StepRes::Other
-            }
+            Step::Evict => StepRes::Maint { real: world.evict() },
+            Step::LruCap { cap, .. } => StepRes::Maint { real: world.lru_cap(*cap as usize) },
             Step::InternTop { ty, x } => {
                 let real = world.intern_top(*ty, *x);
                 StepRes::Interned { real, want: ((*ty).min(3), *x) }
             }
             Step::Fresh => unreachable!(),
         };
+        // fault engine: the armed panic fired inside this step
+        let fired_now = opts.fault.is_some() && !fired_before && crate::fault::fired();
+        if fired_now {
+            let real_err: Option<Option<&Pan>> = match &res {
+                StepRes::Got { real, .. } => Some(real.as_ref().err()),
+                StepRes::Acc { real, .. } => Some(real.as_ref().err()),
+                StepRes::Write { real, .. } => Some(real.as_ref().err()),
+                StepRes::Interned { real, .. } => Some(real.as_ref().err()),
+                StepRes::Maint { real } => Some(real.as_ref().err()),
+                StepRes::Other => None,
+            };
+            match real_err {
+                Some(Some(Pan::Injected(..))) => {}
+                Some(Some(other)) => violations.push(Violation {
+                    rule: "fault-payload-replaced".into(),
+                    step: idx,
+                    detail: format!("{step:?}: injected panic at site {:?} reached the caller as `{}`", crate::fault::last_site(), other.text()),
+                }),
+                Some(None) | None => violations.push(Violation {
+                    rule: "fault-swallowed".into(),
+                    step: idx,
+                    detail: format!("{step:?}: injected panic at site {:?} did not reach the caller; the step returned normally", crate::fault::last_site()),
+                }),
+            }
+            // the interrupted write may or may not have taken effect: resynchronise the model
+            model = model_before.clone();
+            for (si, sl) in model.vals.iter_mut().enumerate() {
+                for (fi, f) in sl.iter_mut().enumerate() {
+                    f.0 = world.peek(si as u8, fi as u8);
+                }
+            }
+            if let Step::SetCell { cell, .. } = step {
+                // the synthetic write that publishes the cell did not (certainly) happen: undo the cell change
+                world.set_cell(*cell, model_before.cells[*cell as usize]);
+            }
+            fault_rev = Some(rev_num(&world.db));
+            let recs = world.take_log();
+            let _ = salsa::verif_hooks::drain();
+            salsa::verif_hooks::start();
+            ix.digest(&recs, rev_num(&world.db), idx);
+            ix.clear_open();
+            if opts.stop_early && !violations.is_empty() {
+                break;
+            }
+            continue;
+        }
         // expectations from the reference (after the model update)
         let res = match res {
             StepRes::Got { key, real, .. } if case.prog.lattice => {
@@ -259,6 +316,12 @@ pub fn run_seq(case: &Case, oracles: &mut [Box<dyn Oracle>], opts: &SeqOpts) -> 
                     crate::lat::LatWant::CyclePanic => Err(RPanic::Cycle),
                     crate::lat::LatWant::Either => Err(RPanic::Either),
                     crate::lat::LatWant::Diverge => Err(RPanic::Diverge),
+                };
+                // after an injected panic, functions that can take part in a cycle may keep
+                // unwinding with PropagatedPanic for the rest of that revision (C22 allows it)
+                let want = match (&real, fault_rev) {
+                    (Err(Pan::Cancelled(c)), Some(fr)) if c.contains("PropagatedPanic") && fr == rev_num(&world.db) => Err(RPanic::Either),
+                    _ => want,
                 };
                 StepRes::Got { key, real, want }
             }
@@ -325,7 +388,9 @@ pub fn run_seq(case: &Case, oracles: &mut [Box<dyn Oracle>], opts: &SeqOpts) -> 
                 }
                 let fw = &fresh_world.as_ref().unwrap().1;
                 fw.reset_budget();
+                let paused = crate::fault::pause();
                 let fres = fw.get(key.0, key.1);
+                crate::fault::resume(paused);
                 fw.take_log();
                 salsa::verif_hooks::start();
                 if let Some(v) = compare_fresh(idx, *key, real, &fres, want) {
@@ -354,7 +419,12 @@ pub fn run_seq(case: &Case, oracles: &mut [Box<dyn Oracle>], opts: &SeqOpts) -> 
     }
     labels.sort();
     labels.dedup();
-    SeqOutcome { violations, labels, steps_run }
+    let ticks = crate::fault::count();
+    let fault_fired = crate::fault::fired();
+    if opts.fault.is_some() {
+        crate::fault::disarm();
+    }
+    SeqOutcome { violations, labels, steps_run, extra_evals: 0, counters: vec![], ticks, fault_fired }
 }
 
 /// Compare an observed value with the reference value (structure, not ids).
